@@ -26,3 +26,4 @@ CFG = dict(
      shards_thorough=4,
      timeout_quick=900, timeout_thorough=3000)
 CFG["rule"] += ' Concurrent programs run under the watchdog: a program none of whose goroutines returns (all blocked inside the structure) is reported as a violation, not a timeout.'
+CFG["rule"] += ' TestMapOddKeys: map keys of float, struct, array and interface types including NaN (not equal to itself), +0/-0 and equal-looking interface values of different dynamic types; sequential histories against the builtin map, compared after every operation.'
